@@ -441,6 +441,28 @@ def _order(chk, ctx, base) -> None:
     rets = [T.norm(n.value) for n in walk_no_nested(op.node) if isinstance(n, ast.Return) and n.value is not None]
     ok = bool(rets) and all(m.eq(r, 'list(rotated(players, -k - 1))') for r in rets)
     chk.ob('C20.order', 'REParser._get_ordered_players', ok, op.loc, 'players are listed from the seat after the button, in seat order', got=[T.show(r) for r in rets[:1]])
+    # where the button is: its seat when somebody sits there; with a dead button the seat before the first blind - heads-up the
+    # first blind IS the button (it posts the small blind); no blinds and no button is an error
+    summary = set()
+    for p in ctx.paths(op):
+        conds = frozenset(T.key(unversion(c)) for c in p.conds())
+        summary.add((T.key(unversion(p.outcome[1])) if p.returned else ('raise', p.outcome[1]), conds))
+
+    def K(src, boolean=False):
+        return T.key(T.spec(src, boolean=boolean))
+    first = 'players.index(next(iter(parsed_blinds_or_straddles)))'
+    want_summary = {
+        (K('list(rotated(players, -seats.index(final_seat) - 1))'), frozenset({K('final_seat in seats', True)})),
+        (K(f'list(rotated(players, -{first} - 1))'),
+         frozenset({K('final_seat not in seats', True), K('parsed_blinds_or_straddles', True), K('len(players) == 2', True)})),
+        (K(f'list(rotated(players, -({first} - 1) - 1))'),
+         frozenset({K('final_seat not in seats', True), K('parsed_blinds_or_straddles', True), K('len(players) != 2', True)})),
+        (('raise', 'ValueError'), frozenset({K('final_seat not in seats', True), K('not parsed_blinds_or_straddles', True)})),
+    }
+    chk.ob('C20.order', 'REParser._get_ordered_players:button', summary == want_summary, op.loc,
+           'the button is the seat named in the log; with a dead button it is the seat before the first blind, except heads-up where '
+           'the first blind is the button itself; neither known is an error',
+           got=sorted(str(x)[:150] for x in summary - want_summary), want=sorted(str(x)[:150] for x in want_summary - summary))
     srt = bool(m.assigns(fi.node, 'sorted(parsed_players, key=parsed_seats.__getitem__)'))
     chk.ob('C20.order', 'REParser._parse:seat_order', srt, fi.loc, 'players are first put in seat order')
     mb = Bl is not None and kw.get('min_bet') is not None and T.norm(kw['min_bet']) == T.spec(f'max({Bl}[:2])')
